@@ -180,7 +180,10 @@ pub fn default_caps() -> Vec<(u16, Vec<u8>)> {
     let pointer = vec![1, 0, 25, 0, 25, 0];
     let input = {
         let mut v = vec![0u8; 84];
-        v[0] = 0x35;
+        // INPUT_FLAG_SCANCODES | MOUSEX | UNICODE: the reference server takes slow-path input only and therefore does
+        // not announce INPUT_FLAG_FASTPATH_INPUT / INPUT2 (a client is free to use fast-path input towards a server
+        // that does)
+        v[0] = 0x15;
         v
     };
     vec![
